@@ -595,6 +595,13 @@ func (rr *RunResult) Returned() bool { return rr.Panic == "" && !rr.Unwind && rr
 
 // Exec unrolls fn (Eval or TryEval) on program p under the current path.
 func (m *Machine) Exec(r *Path, fn *ssa.Function, p *XProg, or *Oracle) *RunResult {
+	return m.ExecOn(r, fn, p, or, nil)
+}
+
+// ExecOn is Exec on a given heap cell: when *hp is non-nil the program is NOT
+// re-allocated, the unrolling runs on the heap the previous run left behind
+// (repeated evaluation of one compiled expression, C10).
+func (m *Machine) ExecOn(r *Path, fn *ssa.Function, p *XProg, or *Oracle, hp **Heap) *RunResult {
 	save := r.oracle
 	if or != nil {
 		r.oracle = or
@@ -611,10 +618,19 @@ func (m *Machine) Exec(r *Path, fn *ssa.Function, p *XProg, or *Oracle) *RunResu
 				r.engine = fmt.Sprintf("interpreter: %v", x)
 			}
 		}()
-		h, err := m.BuildHeap(r, p)
-		if err != nil {
-			r.engine = err.Error()
-			return
+		var h *Heap
+		if hp != nil && *hp != nil {
+			h = *hp
+		} else {
+			var err error
+			h, err = m.BuildHeap(r, p)
+			if err != nil {
+				r.engine = err.Error()
+				return
+			}
+			if hp != nil {
+				*hp = h
+			}
 		}
 		in := &interp{m: m, run: r, nNodes: len(p.Nodes)}
 		res := in.callFn(fn, []Value{h.Expr, h.Ctx}, nil, "")
